@@ -20,7 +20,7 @@ impl Prop for C13 {
         "real binary: commands {encrypt, decrypt, password encrypt, password decrypt, key generate} x every failure cause that precedes authenticated output (bad arguments, missing input, missing / malformed / non-UTF-8 keyring, unknown key name, no private key, \
          wrong password, unset password variable, wrong magic, corrupted header, corrupted or truncated first chunk, truncated header, input = output, refused key exchange with a low-order recipient key) x prior state of the output path {absent, present with content}; \
          plus late failures (chunk 1 or 2 of a 3-chunk file corrupted, truncation inside chunk 2, trailing byte). observable: exit status and the output path (absent / exact bytes), compared with the Lean CLI model; \
-         oracle: early failure => path exactly as before; late failure => path holds exactly the authenticated whole-chunk prefix, exit 1. non-trivial = distinct (command, cause, prior state)".into()
+         oracle: early failure => path exactly as before; late failure => path holds exactly the authenticated whole-chunk prefix, exit 1. on a terminal: password encrypt / key generate with mismatching confirmations typed first, password decrypt, key generate --env-pass with a typed name: the output file is written once, after the last prompt, and holds what the confirmed password opens. non-trivial = distinct (command, cause, prior state)".into()
     }
     fn cases(&self, _tier: &str, seed: u64) -> Vec<Case> {
         let mut rng = Rng::new(seed ^ 0xC13);
@@ -33,9 +33,11 @@ impl Prop for C13 {
         for cmd in ["decrypt", "pass-decrypt"] { for late in ["corrupt-chunk1", "corrupt-chunk2", "truncated-chunk2", "trailing-byte"] { for prior in ["absent", "present"] {
             v.push(case(&[("cmd", cmd.into()), ("cause", late.into()), ("prior", prior.into()), ("seed", rng.next().to_string())]));
         } } }
+        v.extend(crate::props::tty::tty_cases(&crate::props::tty::OPS_C13, _tier, seed));
         v
     }
     fn run(&self, c: &Case, m: &mut Model) -> Outcome {
+        if get(c, "kind") == "tty" { return crate::props::tty::run_tty_case(c, m); }
         let mut o = Outcome::default();
         let fx = fixtures();
         let mut rng = Rng::new(get(c, "seed").parse().unwrap_or(0));
